@@ -42,31 +42,20 @@ def run(ctx, col: Collector):
         col.check(set(consts) == {'ONE_TO_MANY', 'MANY_TO_ONE', 'ONE_TO_ONE', 'MANY_TO_MANY'} and
                   (consts.get('ONE_TO_MANY'), consts.get('MANY_TO_ONE'), consts.get('ONE_TO_ONE'), consts.get('MANY_TO_MANY')) == ('<', '>', '-', '<>'),
                   'C04-direction', 'constants', 'the four kind constants are < > - <>', f'kind constants are {consts}', file='pydbml/constants.py')
-        seen: Dict[str, List[Tuple[str, str]]] = {}
-        m2m_branch = False
-        for n in ast.walk(fi.node):
-            if isinstance(n, ast.If):
-                ks = kinds_of_test(n.test, p)
-                if not ks:
-                    continue
-                for c in ast.walk(ast.Module(body=n.body, type_ignores=[])):
-                    if isinstance(c, ast.Call):
-                        kw = {k.arg: norm(k.value) for k in c.keywords}
-                        args = [norm(a) for a in c.args]
-                        if 'source_col' in kw and 'ref_col' in kw:
-                            for k in ks:
-                                seen.setdefault(k, []).append((kw['source_col'].replace(f'{p}.', ''), kw['ref_col'].replace(f'{p}.', '')))
-                        elif norm(c.func) == 'generate_many_to_many_sql':
-                            if 'MANY_TO_MANY' in ks:
-                                m2m_branch = True
-                        elif len(args) >= 3 and args[0] == p and args[1].startswith(f'{p}.col') and args[2].startswith(f'{p}.col'):
-                            for k in ks:
-                                seen.setdefault(k, []).append((args[1].replace(f'{p}.', ''), args[2].replace(f'{p}.', '')))
+        from .c18 import fk_dispatch
+        seen, unresolved, m2m_branch, _ = fk_dispatch(ctx)
         for k, want in WANT.items():
-            got = seen.get(k, [])
-            col.check(got == [want], 'C04-direction', f'render_reference:{k}', f'`{consts.get(k)}`: foreign key on {want[0]} referencing {want[1]}',
-                      f'for `{consts.get(k)}` references render_reference passes (source, referenced) = {got or "nothing"}; the relationship requires {want}: '
-                      f'the FOREIGN KEY is put on the wrong table / missing / emitted twice', node=fi.node, file=fi.file)
+            got = sorted(set(seen.get(k, [])))
+            cons = f'render_reference:{k}'
+            if got == [want]:
+                col.ok('C04-direction', cons, f'`{consts.get(k)}`: foreign key on {want[0]} referencing {want[1]}', node=fi.node, file=fi.file)
+            elif got:
+                col.bad('C04-direction', cons, f'for `{consts.get(k)}` references render_reference passes (source, referenced) = {got}; the relationship requires {want}: '
+                        f'the FOREIGN KEY is put on the wrong table / emitted twice', node=fi.node, file=fi.file)
+            elif k in unresolved or any(k in (kinds_of_test(x.test, p) or ()) for x in ast.walk(fi.node) if isinstance(x, ast.If)):
+                col.unk('C04-direction', cons, f'`{consts.get(k)}` is dispatched in render_reference but the sides passed to the generator cannot be resolved', node=fi.node, file=fi.file)
+            else:
+                col.bad('C04-direction', cons, f'render_reference has no branch for `{consts.get(k)}` references: they produce no FOREIGN KEY', node=fi.node, file=fi.file)
         col.check(m2m_branch, 'C04-direction', 'render_reference:MANY_TO_MANY', '`<>` goes to the join-table generator',
                   '`<>` references are not dispatched to generate_many_to_many_sql', node=fi.node, file=fi.file)
         # the m2m branch returns before the FK dispatch
@@ -129,49 +118,94 @@ def run(ctx, col: Collector):
 
     # ---------------------------------------------------------------- C04-roles
     def roles():
+        from ..strctx import TemplateIndex, origin_finals
+        ti = TemplateIndex(idx, ('pydbml.renderer.sql.',))
         for gname, first_lit in (('generate_inline_sql', 'FOREIGN KEY'), ('generate_not_inline_sql', 'ALTER TABLE')):
             fi = idx.func(REFMOD, gname)
             params = [a.arg for a in fi.node.args.args]
             if params[1:3] != ['source_col', 'ref_col']:
                 raise Unrecognised(f'{gname} parameters are {params}', fi.node)
             m = params[0]
-            ss = sinks_of(fi)
+            fins = list(origin_finals(ti, fi))
+            # helpers the generator delegates (parts of) its text to: their sinks count too, with parameters re-rooted at the arguments
+            texts = [c.value for c in ast.walk(fi.node) if isinstance(c, ast.Constant) and isinstance(c.value, str)]
+            seen_h = {fi.id}
+            frontier = [(fi, {})]
+            for _ in range(2):
+                nxt_f = []
+                for f0, ren0 in frontier:
+                    for c in ast.walk(f0.node):
+                        if isinstance(c, ast.Call) and isinstance(c.func, ast.Name):
+                            h = ti.resolve_func(f0, c.func.id)
+                            if h is None or h.id in seen_h or h.id not in ti.sinks:
+                                continue
+                            seen_h.add(h.id)
+                            hp = [a.arg for a in h.node.args.args]
+                            ren = {}
+                            for pn, a in zip(hp, c.args):
+                                src = norm(a)
+                                root = src.split('.')[0].split('[')[0]
+                                ren[pn] = ren0.get(root, root) + src[len(root):]
+                            for k in c.keywords:
+                                if k.arg:
+                                    ren[k.arg] = norm(k.value)
+                            texts += [x.value for x in ast.walk(h.node) if isinstance(x, ast.Constant) and isinstance(x.value, str)]
+                            for o, f, w, g, pth, ch in origin_finals(ti, h):
+                                root = pth.split('.')[0].split('[')[0]
+                                if root in ren:
+                                    pth = ren[root] + pth[len(root):]
+                                fins.append((o, f, w, g, pth, ch))
+                            nxt_f.append((h, ren))
+                frontier = nxt_f
+            closure_text = ' '.join(x.template for h in fins for x in h[5]) + ' ' + ' '.join(texts)
 
-            def holes_after(lit: str) -> List[Sink]:
-                return [s for s in ss if s.left.rstrip().endswith(lit) or s.left.rstrip(' (').endswith(lit)]
+            def after(lit: str):
+                return [h for h in fins if any(x.left.rstrip(' (').endswith(lit) or x.left.rstrip().endswith(lit) for x in h[5])]
 
-            def src_of(s: Sink) -> str:
-                return s.source[1]
-            fk = [s for s in ss if s.left.rstrip(' (').endswith('FOREIGN KEY')]
-            col.check(len(fk) == 1 and src_of(fk[0]) == 'source_col' and 'col_names' in fk[0].wrappers, 'C04-roles', f'{gname}:FOREIGN KEY',
-                      'FOREIGN KEY lists the source side\'s columns', f'{gname}: the column list after FOREIGN KEY comes from '
-                      f'`{norm(fk[0].node) if fk else "nothing"}`, expected col_names(source_col)', node=fk[0].node if fk else fi.node, file=fi.file)
-            rt = [s for s in ss if s.left.rstrip().endswith('REFERENCES')]
-            col.check(len(rt) == 1 and src_of(rt[0]) == 'ref_col[0].table' and 'get_full_name_for_sql' in rt[0].wrappers, 'C04-roles', f'{gname}:REFERENCES-table',
-                      'REFERENCES names the referenced side\'s table, qualified', f'{gname}: the table after REFERENCES comes from '
-                      f'`{norm(rt[0].node) if rt else "nothing"}`, expected get_full_name_for_sql(ref_col[0].table)', node=rt[0].node if rt else fi.node, file=fi.file)
+            def judge(cons: str, lit: str, want_path: str, need_wrapper: Optional[str], ok_msg: str, what: str, hits=None):
+                hits = after(lit) if hits is None else hits
+                if lit not in closure_text:
+                    col.bad('C04-roles', cons, f'{gname} never emits `{lit}` (neither itself nor through the helpers it calls)', node=fi.node, file=fi.file)
+                    return
+                if not hits:
+                    col.unk('C04-roles', cons, f'{gname}: cannot see what follows `{lit}`', node=fi.node, file=fi.file)
+                    return
+                good = [h for h in hits if h[4] == want_path and (need_wrapper is None or need_wrapper in h[2])]
+                if good:
+                    col.ok('C04-roles', cons, ok_msg, node=good[0][1].node, file=good[0][1].fn.file)
+                else:
+                    h = hits[0]
+                    col.bad('C04-roles', cons, f'{gname}: {what} comes from `{h[4]}` (via {h[2] or "nothing"}), expected {need_wrapper + "(" if need_wrapper else ""}{want_path}'
+                            f'{")" if need_wrapper else ""}', node=h[1].node, file=h[1].fn.file)
+            judge(f'{gname}:FOREIGN KEY', 'FOREIGN KEY', 'source_col', 'col_names', 'FOREIGN KEY lists the source side\'s columns', 'the column list after FOREIGN KEY')
+            judge(f'{gname}:REFERENCES-table', 'REFERENCES', 'ref_col[0].table', 'get_full_name_for_sql', 'REFERENCES names the referenced side\'s table, qualified',
+                  'the table after REFERENCES')
+            rt = after('REFERENCES')
             if rt:
-                i = ss.index(rt[0])
-                nxt = [s for s in ss if s.template == rt[0].template and s.node.lineno >= rt[0].node.lineno and s is not rt[0] and s.left.endswith(' (') and src_of(s) == 'ref_col']
-                col.check(bool(nxt) and 'col_names' in nxt[0].wrappers, 'C04-roles', f'{gname}:REFERENCES-columns', 'REFERENCES lists the referenced side\'s columns',
-                          f'{gname}: the column list after the referenced table does not come from col_names(ref_col)', node=rt[0].node, file=fi.file)
+                nxt = [h for h in fins if any(x.left.endswith(' (') for x in h[5]) and h[4] == 'ref_col' and 'col_names' in h[2]]
+                col.check(bool(nxt), 'C04-roles', f'{gname}:REFERENCES-columns', 'REFERENCES lists the referenced side\'s columns',
+                          f'{gname}: the column list after the referenced table does not come from col_names(ref_col)', node=rt[0][1].node, file=rt[0][1].fn.file)
             if gname == 'generate_not_inline_sql':
-                at = [s for s in ss if s.left.rstrip().endswith('ALTER TABLE')]
-                col.check(len(at) == 1 and src_of(at[0]) == 'source_col[0].table' and 'get_full_name_for_sql' in at[0].wrappers, 'C04-roles',
-                          f'{gname}:ALTER TABLE', 'ALTER TABLE names the key-holding (source) table, qualified',
-                          f'{gname}: the table after ALTER TABLE comes from `{norm(at[0].node) if at else "nothing"}`, expected get_full_name_for_sql(source_col[0].table)',
-                          node=at[0].node if at else fi.node, file=fi.file)
-            # actions
+                judge(f'{gname}:ALTER TABLE', 'ALTER TABLE', 'source_col[0].table', 'get_full_name_for_sql', 'ALTER TABLE names the key-holding (source) table, qualified',
+                      'the table after ALTER TABLE')
             for attr, kw in (('on_update', 'ON UPDATE'), ('on_delete', 'ON DELETE')):
-                hs = [s for s in ss if s.left.rstrip().endswith(kw)]
-                ok = len(hs) == 1 and src_of(hs[0]) == f'{m}.{attr}' and (f'{m}.{attr}', True) in hs[0].guards
-                col.check(ok, 'C04-roles', f'{gname}:{kw}', f'{kw} <{attr}> is emitted when {attr} is set',
-                          f'{gname}: after `{kw}` comes `{norm(hs[0].node) if hs else "nothing"}` under {hs[0].guards if hs else "-"}; expected {m}.{attr} under `if {m}.{attr}`',
-                          node=hs[0].node if hs else fi.node, file=fi.file)
-            # the constraint placeholder stays in the template
-            lits = ''.join(c.value for t in ast.walk(fi.node) if isinstance(t, ast.JoinedStr) for c in t.values if isinstance(c, ast.Constant))
-            col.check('{c}' in lits and lits.index('{c}') < lits.index('FOREIGN KEY'), 'C04-roles', f'{gname}:constraint-placeholder',
-                      'the CONSTRAINT placeholder stands right before FOREIGN KEY', f'{gname} has no `{{c}}` placeholder before FOREIGN KEY', node=fi.node, file=fi.file)
+                hits = after(kw)
+                cons = f'{gname}:{kw}'
+                if kw not in closure_text:
+                    col.bad('C04-roles', cons, f'{gname} never emits `{kw}`: the {attr} action of a reference is lost', node=fi.node, file=fi.file)
+                elif not hits:
+                    col.unk('C04-roles', cons, f'{gname}: cannot see what follows `{kw}`', node=fi.node, file=fi.file)
+                else:
+                    h = hits[0]
+                    okp = h[4] == f'{m}.{attr}' or h[4].endswith(f'.{attr}')
+                    okg = any(t.endswith(f'.{attr}') and pol for t, pol in h[3])
+                    col.check(okp and okg, 'C04-roles', cons, f'{kw} <{attr}> is emitted when {attr} is set',
+                              f'{gname}: after `{kw}` comes `{h[4]}` under {[t for t, _ in h[3]]}; expected {m}.{attr} under a test of that attribute',
+                              node=h[1].node, file=h[1].fn.file)
+            # the constraint placeholder stands before FOREIGN KEY
+            col.check('{c}' in closure_text and closure_text.index('{c}') < closure_text.index('FOREIGN KEY') if 'FOREIGN KEY' in closure_text else False,
+                      'C04-roles', f'{gname}:constraint-placeholder', 'the CONSTRAINT placeholder stands right before FOREIGN KEY',
+                      f'{gname} has no `{{c}}` placeholder before FOREIGN KEY', node=fi.node, file=fi.file)
         # col_names keeps the order of the side
         cn = idx.func(REFMOD, 'col_names')
         p = [a.arg for a in cn.node.args.args][0]
